@@ -54,3 +54,7 @@ template void use_stats(const unodb::mutex_db<std::uint64_t, unodb::value_view>&
 template void use_stats(const unodb::mutex_db<unodb::key_view, unodb::value_view>&);
 }  // namespace usa_uses
 #endif
+namespace usa_uses {
+// positive control of LEAF-3 (zero expected matches in the library): the const-drop detector must report this cast on every run
+std::byte* usa_control_const_drop(const std::byte* p) { return const_cast<std::byte*>(p); }
+}  // namespace usa_uses
